@@ -124,7 +124,20 @@ fn run_schedule(s: &Schedule, lean: &mut Option<&mut Lean>) -> Outcome {
                 let n = emitted.entry(*so).or_insert(0);
                 *n += 1;
                 if *n > 1 {
-                    let key = if single { "C17:at-most-once:single-frame-duplicate" } else { "C17:at-most-once" };
+                    // was the whole packet delivered (at least) twice? then the second emission is the
+                    // consequence of a network-duplicated packet whose slot had been reclaimed in between
+                    let mut per_off: HashMap<usize, usize> = HashMap::new();
+                    for (fo, _) in &frames {
+                        *per_off.entry(*fo).or_insert(0) += 1;
+                    }
+                    let whole_dup = per_off.values().all(|c| *c >= *n);
+                    let key = if single {
+                        "C17:at-most-once:single-frame-duplicate"
+                    } else if whole_dup {
+                        "C17:at-most-once:whole-packet-duplicated"
+                    } else {
+                        "C17:at-most-once"
+                    };
                     out.spec.push((key.into(), format!("packet stream_offset={so} emitted {} times (frame #{i})", *n)));
                 }
             }
